@@ -107,7 +107,7 @@ theorem spellNode_denote (he : EnvFacts env) (inScope : List (Nat × Nat)) (n : 
       have hfacts := spellItems_facts he hrel' inScope (Tree.node (.element name) ks) hdecls
         (fun a ha' => attrs_valueOK env hn ha') (attrTokens_prefixes _ ats ha)
       obtain ⟨hdo, hao, _⟩ := hfacts
-      have hres := hrel'.element he hp hcheck
+      have hres := (hrel'.element he hp hcheck).1
       refine ⟨.node (.elem (env.expanded name).1 (env.expanded name).2 (items.filterMap NItem.decl?)
         (items.filterMap NItem.attr?) (items.filterMap NItem.node?)), ?_, rfl, rfl, ?_⟩
       · simp only [decodeNsTree, hitems]
